@@ -15,6 +15,7 @@ pub mod c14;
 pub mod c15;
 pub mod c16;
 pub mod c17;
+pub mod c18;
 pub mod c19;
 
 pub type RunFn = fn(&Ctx);
@@ -35,5 +36,6 @@ pub const ALL: &[(&str, RunFn)] = &[
     ("C15", c15::run),
     ("C16", c16::run),
     ("C17", c17::run),
+    ("C18", c18::run),
     ("C19", c19::run),
 ];
